@@ -5,6 +5,7 @@ import (
 	"math"
 	"reflect"
 	"strconv"
+	"strings"
 
 	"github.com/ah-naf/borno/ast"
 	"github.com/ah-naf/borno/environment"
@@ -930,5 +931,43 @@ func stringify(value interface{}) string {
 	if valRune, ok := value.([]rune); ok {
 		return string(valRune)
 	}
-	return fmt.Sprintf("%v", value)
+	return formatValue(value, map[uintptr]bool{})
+}
+
+// formatValue renders a value the way fmt's %v does (objects as map[k:v ...] with
+// sorted keys, arrays as [a b ...]), except that an object or array met again
+// while it is still being printed is abbreviated: aliasing makes cyclic values
+// possible (o.self = o), and fmt recurses on them until the stack overflows.
+func formatValue(value interface{}, printing map[uintptr]bool) string {
+	switch v := value.(type) {
+	case map[string]interface{}:
+		id := reflect.ValueOf(v).Pointer()
+		if printing[id] {
+			return "map[...]"
+		}
+		printing[id] = true
+		defer delete(printing, id)
+		parts := make([]string, 0, len(v))
+		for _, key := range sortedKeys(v) {
+			parts = append(parts, key+":"+formatValue(v[key], printing))
+		}
+		return "map[" + strings.Join(parts, " ") + "]"
+	case []interface{}:
+		if len(v) == 0 {
+			return "[]"
+		}
+		id := reflect.ValueOf(v).Pointer()
+		if printing[id] {
+			return "[...]"
+		}
+		printing[id] = true
+		defer delete(printing, id)
+		parts := make([]string, 0, len(v))
+		for _, element := range v {
+			parts = append(parts, formatValue(element, printing))
+		}
+		return "[" + strings.Join(parts, " ") + "]"
+	default:
+		return fmt.Sprintf("%v", value)
+	}
 }
